@@ -355,14 +355,17 @@ func (gen *generator) irAttrGroupDef(new *ir.AttrGroupDef, oldDefs []*ast.AttrGr
 	present := make(map[string]bool)
 	for _, oldDef := range oldDefs {
 		for _, oldFuncAttr := range oldDef.FuncAttrs() {
-			lit := oldFuncAttr.LlvmNode().Text()
-			if present[lit] {
-				// skip duplicate attribute.
-				continue
-			}
 			funcAttr, err := gen.irFuncAttribute(oldFuncAttr)
 			if err != nil {
 				return errors.WithStack(err)
+			}
+			// Duplicates are identified by the translated attribute rather than by
+			// the source text, as the same attribute may be spelled in more than
+			// one way; e.g. `"a"="b"` and `"a" = "b"`.
+			lit := funcAttr.String()
+			if present[lit] {
+				// skip duplicate attribute.
+				continue
 			}
 			new.FuncAttrs = append(new.FuncAttrs, funcAttr)
 			present[lit] = true
